@@ -23,6 +23,11 @@ package keeper
 //@   ensures #c03-price-in-needed: !esmOn(k, ctx, epv.AppId) && k.oracle.CalcAssetPrice(ctx, ai.Id, amountIn).1 != nil ==> result1 != nil
 //@   ensures #c03-price-out-needed: !esmOn(k, ctx, epv.AppId) && epv.AssetOutOraclePrice && k.asset.GetPairsVault(ctx, extendedPairVaultID).1 && k.asset.GetPair(ctx, epv.PairId).1 && k.asset.GetAsset(ctx, pr.AssetIn).1 && k.asset.GetAsset(ctx, pr.AssetOut).1 && k.oracle.CalcAssetPrice(ctx, ao.Id, amountOut).1 != nil ==> result1 != nil
 //@   ensures #c03-missing-config: !k.asset.GetPairsVault(ctx, extendedPairVaultID).1 || !k.asset.GetPair(ctx, epv.PairId).1 || !k.asset.GetAsset(ctx, pr.AssetIn).1 || !k.asset.GetAsset(ctx, pr.AssetOut).1 ==> result1 != nil
+//@   let vin = k.oracle.CalcAssetPrice(ctx, ai.Id, amountIn).0
+//@   let voutOracle = k.oracle.CalcAssetPrice(ctx, ao.Id, amountOut).0
+//@   let voutFixed = decQuo(decMul(amountOut * ONE, epv.AssetOutPrice * ONE), ao.Decimals * ONE)
+//@   ensures #c03-ratio-is-collateral-value-over-debt-value-oracle: result1 == nil && !esmOn(k, ctx, epv.AppId) && epv.AssetOutOraclePrice ==> result0 == decQuo(vin, voutOracle) && vin > 0 && voutOracle > 0
+//@   ensures #c03-ratio-is-collateral-value-over-debt-value-fixed-price: result1 == nil && !esmOn(k, ctx, epv.AppId) && !epv.AssetOutOraclePrice ==> result0 == decQuo(vin, voutFixed) && vin > 0 && voutFixed > 0
 
 //@ func (k Keeper) VerifyCollaterlizationRatio
 //@   property C03
